@@ -156,12 +156,17 @@ def fdiffCoef (d : Rat) (w : Nat) : List Rat :=
 
 def dot (xs cs : List Rat) : Rat := ((xs.zip cs).map fun p => p.1 * p.2).foldl (· + ·) 0
 
+/-- one term of the null-skipping accumulation `if v.not_none() { acc + v * c } else { acc }` -/
+def optMul (p : Option Rat × Rat) : Rat :=
+  match p.1 with
+  | some v => v * p.2
+  | none => 0
+
 /-- `ts_vfdiff` closure on one window slice -/
 def vfdiffEmit (d : Rat) (w mp : Nat) (arr : List (Option Rat)) : Out :=
   let n := (valid arr).length
   if n = w then
-    .val (((arr.zip (fdiffCoef d w)).map fun p => match p.1 with
-            | some v => v * p.2 | none => 0).foldl (· + ·) 0)
+    .val (((arr.zip (fdiffCoef d w)).map optMul).foldl (· + ·) 0)
   else if n ≥ mp then .val (dot (valid arr) (fdiffCoef d n))
   else .null
 
